@@ -25,9 +25,13 @@ import (
 type BGVSpec struct {
 	LogN, NQ, QBits, NP, PBits int
 	T                          uint64
+	Q0Bits                     int // 0: like the others; otherwise the size of the first prime of Q
 }
 
 func (s BGVSpec) String() string {
+	if s.Q0Bits > 0 {
+		return fmt.Sprintf("bgv-N%d-q%d+%dx%d-p%dx%d-t%d", s.LogN, s.Q0Bits, s.NQ-1, s.QBits, s.NP, s.PBits, s.T)
+	}
 	return fmt.Sprintf("bgv-N%d-q%dx%d-p%dx%d-t%d", s.LogN, s.NQ, s.QBits, s.NP, s.PBits, s.T)
 }
 
@@ -45,7 +49,10 @@ type BGV struct {
 // NewBGV builds the world. Call uni.Seed first: the secret key consumes NewPRNG streams.
 func NewBGV(s BGVSpec) *BGV {
 	lit := bgv.ParametersLiteral{LogN: s.LogN, PlaintextModulus: s.T}
-	if s.QBits == s.PBits {
+	if s.Q0Bits > 0 {
+		lit.Q = append(uni.Primes(s.LogN, s.Q0Bits, 1), distinctFrom(uni.Primes(s.LogN, s.QBits, s.NQ+1), uni.Primes(s.LogN, s.Q0Bits, 1), s.NQ-1)...)
+		lit.P = distinctFrom(uni.Primes(s.LogN, s.PBits, s.NP+s.NQ+1), lit.Q, s.NP)
+	} else if s.QBits == s.PBits {
 		all := uni.Primes(s.LogN, s.QBits, s.NQ+s.NP)
 		// the larger primes go to P (key-switching noise is divided by P)
 		lit.P, lit.Q = all[:s.NP], all[s.NP:]
@@ -98,7 +105,7 @@ func (w *BGV) Decode(ct *rlwe.Ciphertext, scale uint64) []uint64 {
 // NP primes of PBits.
 type CKKSSpec struct {
 	LogN, NQ, Q0Bits, QBits, NP, PBits, LogScale int
-	CI                                          bool // conjugate-invariant ring (real slots, N of them)
+	CI                                           bool // conjugate-invariant ring (real slots, N of them)
 }
 
 func (s CKKSSpec) String() string {
